@@ -134,13 +134,14 @@ Definition twice_false_file : list d4token := [DOr; DFalse; DTrue; DEdge 1 2 [];
 (* an or node that is deterministic without being a decision node *)
 Definition nondecision_file : list d4token :=
   [DOr; DAnd; DAnd; DTrue; DEdge 1 2 []; DEdge 1 3 []; DEdge 2 4 [1]%Z; DEdge 3 4 [-1]%Z].
-(* an unreachable cycle *)
-Definition garbage_cycle_file : list d4token :=
-  [DOr; DTrue; DAnd; DAnd; DEdge 1 2 [1]%Z; DEdge 1 2 [-1]%Z; DEdge 3 4 []; DEdge 4 3 []].
 Theorem conform_not_necessary :
   (d4_conform twice_false_file 1 = false /\ exists C, load_d4 twice_false_file 1 = Some (C, 1) /\ check_wf C 1 = true) /\
-  (d4_conform nondecision_file 1 = false /\ exists C, load_d4 nondecision_file 1 = Some (C, 1) /\ check_wf C 1 = true) /\
-  (d4_conform garbage_cycle_file 1 = false /\ exists C, load_d4 garbage_cycle_file 1 = Some (C, 1) /\ check_wf C 1 = true).
+  (d4_conform nondecision_file 1 = false /\ exists C, load_d4 nondecision_file 1 = Some (C, 1) /\ check_wf C 1 = true).
 Proof.
   repeat split; try (vm_compute; reflexivity); eexists; split; vm_compute; reflexivity.
 Qed.
+(* d4_conform also asks for a height certificate over ALL nodes, reachable or not.  The model
+   would load a file with a cycle that node 1 does not reach; the implementation asserts
+   !is_cyclic_directed on the whole graph (debug_assert in IntermediateGraph::new / rebuild,
+   not modelled: see Model/LoadD4.v), so for the code as built by the harness the condition is
+   not stronger than needed. *)
